@@ -171,7 +171,7 @@ impl<'a> G<'a> {
                     }
                     _ => {
                         // through the iterator and back: v.into_iter()[pulls].collect()
-                        self.push(Op::new(OpK::VIntoIter));
+                        { let a = self.r.below(2); self.push(Op::a(OpK::VIntoIter, a)); }
                         self.enter_iter();
                         let pulls = self.r.below(3);
                         for _ in 0..pulls {
@@ -525,7 +525,7 @@ impl<'a> G<'a> {
             self.form = F::Gone;
             return;
         }
-        self.push(Op::new(OpK::VIntoIter));
+        { let a = self.r.below(2); self.push(Op::a(OpK::VIntoIter, a)); }
         self.enter_iter();
         // ---- iterator history ----
         let targeted = self.r.chance(1, 3);
@@ -579,7 +579,7 @@ impl<'a> G<'a> {
                 self.form = F::V;
             }
             if self.form == F::V {
-                self.push(Op::new(OpK::VIntoIter));
+                { let a = self.r.below(2); self.push(Op::a(OpK::VIntoIter, a)); }
                 self.enter_iter();
                 let hl = self.r.range(1, 6);
                 for _ in 0..hl {
